@@ -780,13 +780,64 @@ def _entry_norm(f):
     return t
 
 
+KERNELS = ("bsplvb_simple", "bspline_deriv_nonzero", "bspline_nonzero", "bspline_deriv")
+
+
+def _selection_leaves(f, i):
+    """the alternatives of a kernel-selection statement (an if / else-if chain or a switch whose arms call different kernels), without
+    the conditions: which arm runs for which selector value is CL-4's obligation on each twin separately, so the twins are compared arm
+    by arm whatever form the selection takes."""
+    n = f.nodes[i]
+    if n["k"] == "IfStmt":
+        out = [n["then"]]
+        e = n.get("else", -1)
+        if e >= 0:
+            out += _selection_leaves(f, e) if f.k(e) in ("IfStmt", "SwitchStmt") else [e]
+        return out
+    if n["k"] == "SwitchStmt" and f.k(n["body"]) == "CompoundStmt":
+        arms, cur = [], []
+        for s in f.ch(n["body"]):
+            t = s
+            fresh = False
+            while f.k(t) in ("CaseStmt", "DefaultStmt"):
+                t = f.nodes[t]["sub"]
+                fresh = True
+            if fresh and cur:
+                arms.append(cur)
+                cur = []
+            cur.append(t)
+        if cur:
+            arms.append(cur)
+        return arms
+    return [i]
+
+
+def _render_arm(f, arm):
+    parts = []
+    for s in (arm if isinstance(arm, list) else [arm]):
+        if f.k(s) == "CompoundStmt":
+            parts += [x for x in f.ch(s)]
+        else:
+            parts.append(s)
+    parts = [x for x in parts if f.k(x) != "BreakStmt"]
+    return "{" + " ".join(t for t in (_render_stmt_tree(f, x) for x in parts) if t) + "}"
+
+
 def _render_stmt_tree(f, i):
     """full-body rendering (statements included) with locals kept by name (the twins share names) and table./this-> folded."""
     n = f.nodes[i]
     k = n["k"]
     ch = f.ch(i)
+    if k in ("IfStmt", "SwitchStmt") and not any(f.k(a) in ("IfStmt", "SwitchStmt") for a in f.ancestors(i)):
+        named = set((f.nodes[x].get("callee") or {}).get("name") for x in f.walk(i)) & set(KERNELS)
+        if len(named) >= 2:
+            return "SELECT{" + " | ".join(sorted(_render_arm(f, a) for a in _selection_leaves(f, i))) + "}"
     if k in ("CompoundStmt",):
-        return "{" + " ".join(t for t in (_render_stmt_tree(f, x) for x in ch) if t) + "}"     # a type alias declaration renders as nothing
+        parts = [(x, t) for x, t in ((x, _render_stmt_tree(f, x)) for x in ch) if t]            # a type alias declaration renders as nothing
+        if len(parts) == 1 and f.k(parts[0][0]) not in ("DeclStmt", "CompoundStmt") and f.parent[i] >= 0 and \
+                f.k(f.parent[i]) in ("ForStmt", "WhileStmt", "IfStmt", "DoStmt"):
+            return parts[0][1]                                                                    # braces around what is left as one statement (N9)
+        return "{" + " ".join(t for _, t in parts) + "}"
     if k == "ForStmt":
         return "for(%s;%s;%s)%s" % tuple(_render_stmt_tree(f, n[x]) if n.get(x, -1) >= 0 else "" for x in ("init", "cond", "inc", "body"))
     if k == "IfStmt":
@@ -813,10 +864,73 @@ def _render_stmt_tree(f, i):
 
 def _expr(f, i):
     t = f.render(i).replace("this->", "").replace("table.", "").replace("this.", "")
+    # the derivative order handed to the recursive reference: CL-4 requires it to evaluate to the selector; its spelling is left out
+    for x in f.walk(i):
+        if (f.nodes[x].get("callee") or {}).get("name") == "bspline_deriv" and len(f.args(x)) == 5 and _is_selector_value(f, f.args(x)[4]):
+            t = t.replace(", " + f.render(f.args(x)[4]).replace("this->", "").replace("table.", "").replace("this.", "") + ")", ", SELECTOR)")
     # the core call: direct generic core, or call through the dispatched member pointer
     t = re.sub(r"ndsplineeval_(multibasis_)?core\(", "CORE(", t)
     t = re.sub(r"\(\(\*\)\((v_)?eval_ptr\)\)\(|\(\.\*\((v_)?eval_ptr\)\)\(|\(table \.\* \(?(v_)?eval_ptr\)?\)\(", "CORE(", t)
     return t
+
+
+def _loop_var_of(f, i):
+    """name of the variable the nearest enclosing counting loop over the dimensions declares (`n` in the pinned tree)"""
+    for a in f.ancestors(i):
+        if f.k(a) == "ForStmt" and f.nodes[a].get("init", -1) >= 0 and f.k(f.nodes[a]["init"]) == "DeclStmt":
+            c = f.nodes[a].get("cond", -1)
+            if c >= 0 and "ndim" in f.render(c):
+                return f.nodes[f.nodes[a]["init"]]["decls"][0]["name"]
+    return "n"
+
+
+def _selector_envs(f, i):
+    """(env, expected kernel, must-be-reached) for every selector value worth telling apart"""
+    v = _loop_var_of(f, i)
+    out = []
+    if f.name == "ndsplineeval":
+        for mask in range(8):
+            for d in range(3):
+                out.append(({"derivatives": mask, v: d}, "bspline_deriv_nonzero" if (mask >> d) & 1 else "bsplvb_simple", True))
+    else:
+        sel = "derivatives[%s]" % v
+        for o in (0, 1, 2, 5):
+            out.append(({"derivatives": core.NULLPTR, "order[%s]" % v: o}, "bsplvb_simple", True))
+            for d in range(8):
+                want = "bsplvb_simple" if d == 0 else "bspline_deriv_nonzero" if d == 1 else "bspline_deriv"
+                # above the spline order the derivative vanishes: a constant fill may stand in for the kernel there (CL-7 decides that)
+                out.append(({"derivatives": core.SOMEPTR, sel: d, "order[%s]" % v: o}, want, d <= o))
+    return out
+
+
+def _selector_ok(f, i, nm):
+    bad = []
+    n_env = 0
+    for env, want, must in _selector_envs(f, i):
+        n_env += 1
+        try:
+            reached = core.path_taken(f, i, env)
+        except core.Unknown as e:
+            return False, "a condition on the way to the call cannot be evaluated over the selector (%s)" % e
+        if reached and want != nm:
+            bad.append("reached for %s where %s belongs" % (env, want))
+        elif not reached and want == nm and must:
+            bad.append("not reached for %s" % env)
+    if bad:
+        return False, "; ".join(bad[:3])
+    return True, "reached exactly for its selector values (%d environments)" % n_env
+
+
+def _is_selector_value(f, a):
+    """the derivative order handed to bspline_deriv is the selector itself wherever the call is reached (order >= 2)"""
+    v = _loop_var_of(f, a)
+    for d in (2, 3, 7):
+        try:
+            if core.expr_value(f, a, {"derivatives": core.SOMEPTR, "derivatives[%s]" % v: d}) != d:
+                return False
+        except core.Unknown:
+            return False
+    return True
 
 
 def cl4(P, C):
@@ -855,20 +969,13 @@ def cl4(P, C):
                             for dd in f.nodes[d_]["decls"]:
                                 if dd.get("id") == f.nodes[a1]["decl"]["id"] and dd.get("init", -1) >= 0:
                                     xarg = f.render(dd["init"]).replace(" ", "")
-                ok = args[0] == "(&knots[n][0])" and xarg == "x[n]" and args[2] == "((centers[n]-order[n])+i)" and args[3] == "order[n]" and args[4] == "derivatives[n]"
-            # selector
-            if f.name == "ndsplineeval":
-                sel = conds[0] if conds else None
-                want_then = nm == "bspline_deriv_nonzero"
-                ok = ok and sel is not None and sel[0] == "(derivatives&(1<<n))" and sel[1] == want_then
-            if f.name == "ndsplineeval_deriv":
-                cs = dict((c, t) for c, t in conds)
-                if nm == "bsplvb_simple":
-                    ok = ok and cs.get("((derivatives==nullptr)||(derivatives[n]==0))") is True
-                elif nm == "bspline_deriv_nonzero":
-                    ok = ok and cs.get("(derivatives[n]==1)") is True and cs.get("((derivatives==nullptr)||(derivatives[n]==0))") is False
-                else:
-                    ok = ok and cs.get("(derivatives[n]==1)") is False and cs.get("((derivatives==nullptr)||(derivatives[n]==0))") is False
+                ok = args[0] == "(&knots[n][0])" and xarg == "x[n]" and args[2] == "((centers[n]-order[n])+i)" and args[3] == "order[n]" and _is_selector_value(f, f.args(i)[4])
+            # selector: the set of selector values under which this call is evaluated (branch conditions, switch labels, ?: and
+            # short-circuit operators on the way evaluated over a small environment) must be the set the kernel stands for
+            if f.name in ("ndsplineeval", "ndsplineeval_deriv"):
+                sel_ok, sel_det = _selector_ok(f, i, nm)
+                ok = ok and sel_ok
+                det += "; selector: " + sel_det
             C.ob("CL-4", name, "%s" % nm, ok, f.loc(i), det)
         if f.name == "ndsplineeval_deriv":
             # CL-7: anything else that fills the local basis (a shortcut for derivatives that vanish) must be confined to derivative > order
